@@ -15,6 +15,7 @@ from pyPRISM.closure.HyperNettedChain import HyperNettedChain
 from pyPRISM.closure.MeanSphericalApproximation import MeanSphericalApproximation
 from pyPRISM.closure.MartynovSarkisov import MartynovSarkisov
 
+from .. import suite as SUITE
 from .. import refmodel as R
 from .. import gen as G
 
@@ -125,6 +126,8 @@ NAMES = ['PY', 'HNC', 'MSA', 'MS']
 
 
 def cases(ctx):
+    if ctx.mine(1):
+        yield {'kind': 'repo_suite'}          # the repository's own tests, run in-process under this check's monitors
     rng = ctx.rng('c09')
     n = ctx.budget(1600, 80000)
     for it in range(n):
@@ -136,6 +139,8 @@ def cases(ctx):
 
 
 def run_case(ctx, case):
+    if case.get('kind') == 'repo_suite':
+        return SUITE.run(ctx)
     rng = np.random.default_rng(case['seed'])
     L = int(case['L'])
     dr = float(rng.choice([0.1, 0.05, 0.025, 0.2]))
